@@ -61,6 +61,12 @@ def cases(tier, seed):
                             "chunk": rng.choice([1, 2, 3, 10 ** 6]), "seed": h,
                             "uchunks": rsplit(total, nuc, rng), "max_merge": rng.choice([1, 2, 200]) if nuc >= 4 else 200,
                             "zoom": zoom, "expect": 8 + len(set(zoom))}
+    # (3b) producers on EMPTY inputs with a second value column
+    for tname, bsz in (("one_fixed", 2), ("fixed_short", 2), ("two_fixed", 2), ("variable", 0), ("onebin_chroms", 0)):
+        for mode in ("symm", "square"):
+            yield "csr.colls", {"producer": "empties", "table": T[tname], "mode": mode, "fixed": bsz > 0, "binsize": bsz,
+                                "mergebuf": rng.choice([1, 10 ** 6]), "k": 2, "chunk": rng.choice([1, 10 ** 6]),
+                                "expect": 8 if bsz else 4}
     # (4) text loaders
     for h in range(24 if tier == "quick" else 300):
         F_h = gen.feat(102, h)          # independent feature choices per case (gen.feat)
@@ -82,7 +88,7 @@ def nontrivial(drv, case, obs):
     if drv == "idx.index":
         return len(case["keys"]) > 0
     if drv == "csr.colls":
-        return len(case["px1"]) > 0
+        return len(case.get("px1", [0])) > 0
     if drv == "cr.roundtrip":
         return len(case["px"]) > 0
     return True
